@@ -150,6 +150,12 @@ func doCheck(prop, tier, repo, verif, only string, dump bool, timeoutS, seed int
 	sort.Strings(pkgPaths)
 	t0 := time.Now()
 	prog, err := loadProgram(repo, contracts, pkgPaths, overlay)
+	for attempt := 0; err != nil && attempt < 2 && strings.Contains(err.Error(), "cache entry not found"); attempt++ {
+		// the Go build cache was trimmed or rewritten by a concurrent build while export data was being read: an
+		// environmental failure, not a property of the tree — load again
+		time.Sleep(2 * time.Second)
+		prog, err = loadProgram(repo, contracts, pkgPaths, overlay)
+	}
 	if err != nil {
 		out.engineErr = "loading packages: " + err.Error()
 		return out
